@@ -48,12 +48,20 @@ def _geo(c):
               net.inaverage_link_distance, net.outaverage_link_distance, net.connectivity_weighted_distance,
               lambda: net.link_distance_distribution(4, "spherical"), lambda: net.average_link_distance(True),
               lambda: net.total_link_distance(True), lambda: net.geographical_distribution(lat, 3),
-              lambda: g.geometric_distance_distribution(4), g.sin_lat, g.cos_lon, g.boundaries):
+              lambda: g.geometric_distance_distribution(4), g.sin_lat, g.cos_lon, g.boundaries,
+              # ... the Euclidean view of the same grid (default of link_distance_distribution)
+              lambda: net.link_distance_distribution(4), g.euclidean_distance):
         try:
             q()
         except Exception:
             pass
     o["ang2"] = enc.arr(g.angular_distance())
+    # ... and the coordinates the grid reports afterwards are the ones it was given (float32 of whole degrees)
+    o["lat_after"] = enc.arr(g.lat_sequence(), 1)
+    o["lon_after"] = enc.arr(g.lon_sequence(), 1)
+    # a second grid built from what the first one reports now has the same distances
+    g2 = GeoGrid(np.arange(3.0), np.array(g.lat_sequence()), np.array(g.lon_sequence()), silence_level=3)
+    o["ang3"] = enc.arr(g2.angular_distance())
     return o
 
 
